@@ -44,8 +44,8 @@ fn exec<I: Input>(mut p: Parser<I>, hist: &[u8], out: &mut Vec<Value>) {
 fn histories(m: usize, rng: &mut Rng, thorough: bool) -> Vec<Vec<u8>> {
     let mut hs: Vec<Vec<u8>> = vec![];
     // every history up to a bound for short streams
-    let maxl = (m + 2).min(if thorough { 10 } else { 7 });
-    if m <= (if thorough { 8 } else { 5 }) {
+    let maxl = (m + 2).min(if thorough { 9 } else { 7 });
+    if m <= (if thorough { 7 } else { 5 }) {
         for l in 1..=maxl {
             for bits in 0..(1u32 << l) {
                 hs.push((0..l).map(|i| if bits >> i & 1 == 1 { b'p' } else { b'n' }).collect());
@@ -88,19 +88,21 @@ pub fn run(a: &Args) {
     let mut w = out_file(a.req("out"));
     let thorough = a.thorough();
     let mut rng = Rng::new(seed_from_env() ^ 0xc17);
-    let per_len = a.num("perlen", if thorough { 12 } else { 3 });
+    let per_len = a.num("perlen", if thorough { 8 } else { 3 });
     let extra = a.num("extra", if thorough { 3000 } else { 300 });
     // choose texts: for each (number of items m <= 12, ending) up to per_len texts, plus random others
     let mut chosen: Vec<(String, Run)> = vec![];
     let mut count = std::collections::HashMap::<(usize, bool), usize>::new();
     let mut others: Vec<usize> = vec![];
+    let mut multidocs = 0usize;
     for (idx, (_o, t)) in pool.iter().enumerate() {
         let r = run_str(t);
         if r.panic.is_some() {
             continue;
         }
         let m = r.evs.len() + r.err.is_some() as usize;
-        if _o == "multidoc" && (idx % 4 == 0 || thorough) {
+        if _o == "multidoc" && idx % 4 == 0 && multidocs < (if thorough { 2000 } else { 400 }) {
+            multidocs += 1;
             chosen.push((t.clone(), r));
             continue;
         }
